@@ -264,7 +264,7 @@ class SubclassJSONSerializer:
         registered_json_deserializer = JSONSerializableTypeRegistry().get_deserializer(
             target_cls
         )
-        if not registered_json_deserializer:
+        if registered_json_deserializer is None:
             raise ClassNotDeserializableError(target_cls)
 
         return registered_json_deserializer(data, **kwargs)
@@ -295,7 +295,7 @@ def to_json(obj: Union[SubclassJSONSerializer, Any]) -> JSON_RETURN_TYPE:
     registered_json_serializer = JSONSerializableTypeRegistry().get_serializer(
         type(obj)
     )
-    if registered_json_serializer:
+    if registered_json_serializer is not None:
         return registered_json_serializer(obj)
 
     if isinstance(obj, leaf_types):
